@@ -32,18 +32,20 @@ def digitsVal (radix : Nat) : List Char → Nat → Option Nat
     | some d => if d < radix then digitsVal radix cs (acc * radix + d) else none
     | none => none
 
+/-- the digits of an unsigned number: all valid, value within the type -/
+def checkDigits (radix max : Nat) (ds : List Char) : Option Nat :=
+  match digitsVal radix ds 0 with
+  | some v => if v ≤ max then some v else none
+  | none => none
+
 /-- `uN::from_str_radix(s, radix)` for an unsigned type whose largest value is `max` -/
 def parseUnsigned (radix max : Nat) (s : List Char) : Option Nat :=
-  let check (ds : List Char) : Option Nat :=
-    match digitsVal radix ds 0 with
-    | some v => if v ≤ max then some v else none
-    | none => none
   match s with
   | [] => none
   | ['+'] => none
   | ['-'] => none
-  | '+' :: rest => check rest
-  | _ => check s
+  | '+' :: rest => checkDigits radix max rest
+  | _ => checkDigits radix max s
 
 def parseAll (radix max : Nat) : List (List Char) → Option (List Nat)
   | [] => some []
